@@ -196,11 +196,6 @@ class NPShim(object):
             r = _np.array(a, dtype=dtype, copy=copy, ndmin=ndmin)
         return r
 
-    def float64(self, x=0.0):
-        if isinstance(x, S):
-            return x
-        return _np.float64(x)
-
     # ---------------------------------------------------------------- predicates numpy lacks for object
     def isnan(self, a):
         a_ = _np.asarray(a)
